@@ -381,7 +381,7 @@ def run_dfs(ctx, programs, k, limit_per_program, count_schedules):
 def run(ctx):
     ctx.set_budget(60, 840)
     ctx.assume("virtual clock: time advances only when the scheduler fires the earliest pending timeout; a notified waiter may be delayed arbitrarily before re-acquiring the lock")
-    ctx.explore(case_st, lambda c: execute(ctx, c), ctx.scale(6000, 40000))
+    ctx.explore(case_st, lambda c: execute(ctx, c), ctx.scale(4000, 40000))
     if ctx.tier == "thorough":
         progs = _programs(3, 2)
         mine = progs[ctx.worker :: ctx.nworkers]
